@@ -3,7 +3,7 @@
 import json, subprocess
 
 HOOK_COMMITS = ["87ef81a", "e38926a"]
-FIX_COMMITS = ["5be8c90", "47e4ff7", "7177454", "0497b13", "b9b128e", "7b0b11e", "20cde3f", "58dba13"]
+FIX_COMMITS = ["5be8c90", "47e4ff7", "7177454", "0497b13", "b9b128e", "7b0b11e", "20cde3f", "58dba13", "6809fe1"]
 
 # id -> (technique, level text, level note, design ref)
 CLAIMED = {
@@ -53,6 +53,24 @@ CLAIMED.update({
  "C20": ("exhaustive configuration matrix (bind presets x builder paths x roles, TLS version/ALPN handshakes, idle-timeout boundaries) + property-based testing of transport settings + behavioural samples through a UDP relay",
          "Exploration with exhaustive cores: 407 bind cells checked by getsockname/getsockopt on the process's own fd, 60 in-memory TLS handshakes, 60 QUIC ALPN handshakes, 200 idle-timeout boundary cells, 300k generated transport configurations, behavioural idle/keep-alive/migration/reload cases.",
          "Linux forces IPV6_V6ONLY on sockets bound to a specific v6 address (asserted only for wildcard binds); timing bounds generous and re-executed before judged.", "DESIGN.md §5 C20"),
+})
+
+CLAIMED.update({
+ "C02": ("property-based testing over real handshakes: generated normal-form URLs, header sets (QPACK static hits, Huffman/non-Huffman, prefix-boundary lengths) and server decisions; identity oracle on what the server application sees; differential variants with a raw server (generated statuses) and a raw client using the reference QPACK encoder under generated representation choices",
+         "Exploration: authority/path/fields seen by the server equal the request exactly and nothing else; connect Ok iff 2xx, SessionRejected iff non-2xx; session ids agree with the CONNECT stream id.",
+         "Generators respect RFC-valid names/values, the 4096-byte section cap and WHATWG URL normal form.", "DESIGN.md §5 C02"),
+ "C03": ("property-based testing of datagrams: sub-multiset oracle on delivered payloads (wtransport and raw receivers), exact size-contract oracle against max_datagram_size() for generated peer limits (exhaustive 0..20), hook-level codec round trip for 1/2/4/8-byte quarter ids, relay loss/reorder",
+         "Exploration with an exhaustive small-limit table; MTU discovery off so the maximum is stable within a case.",
+         "quinn tears the connection down when its own receive buffer is smaller than datagram + bookkeeping; sends after that are not judged.", "DESIGN.md §5 C03"),
+ "C04": ("property-based testing with a raw peer: generated termination style (capsule / FIN / QUIC close / reset / truncated DATA / malformed capsule) x code x reason x session phase; exact-value oracle on pending and later peer-waiting calls",
+         "Exploration: every 32-bit capsule code class, UTF-8 reasons up to 1024 bytes incl. multi-byte scalars at the boundary, 62-bit QUIC codes, non-UTF-8 reasons; abrupt/malformed styles must not be reported as application close and must close with an HTTP/3 error code.",
+         "The capsule is delivered in one piece (interleaving is C05's quantifier).", "DESIGN.md §5 C04"),
+ "C06": ("property-based testing of stream signals across three peer pairings (wtransport<->wtransport, raw signals, raw observes the wire code), generated code (every varint width) x signal x phase; relay black-hole test for 'finish only once acknowledged'",
+         "Exploration: reset(c) -> prefix then Reset(c); stop(c) -> write/finish/stopped report Stopped(c); finish -> all bytes then EOF; finish() must not return while all packets towards the peer are dropped.",
+         "Bounded liveness for signal arrival.", "DESIGN.md §5 C06"),
+ "C16": ("property-based conformance testing: everything the endpoint emits in generated scenarios is recorded by a raw peer and decoded by the independent reference codec (wire::validate)",
+         "Exploration: control stream / SETTINGS content, request and response field sections (prefix, representations, pseudo-header rules), WT stream preambles, datagram prefixes, close code/reason, ALPN; both roles, session ids 0 and 256.",
+         "Trusts refcodec and wire::validate.", "DESIGN.md §5 C16"),
 })
 
 E2E_PENDING = {
